@@ -73,6 +73,8 @@ def cases(rng, tier):
             c["method"] = "POST"
         if len(out) % 4 == 1:
             c["bytes_body"] = True
+        if len(out) % 5 == 2 and c["body"]:
+            c["ctype"] = ["application/x-www-form-urlencoded; charset=UTF-8", "application/x-www-form-urlencoded;charset=utf-8"][len(out) % 2]      # the media type with a parameter
         if len(out) % 3:
             c["signer"] = ["requests", "httpx"][len(out) % 3 - 1]      # the request goes out through the requests / httpx integration
         k = repr(sorted(c.items(), key=lambda kv: kv[0]))
@@ -104,7 +106,7 @@ def sign(c):
     headers = {}
     body = c["body"]
     if body is not None:
-        headers["Content-Type"] = "application/x-www-form-urlencoded"
+        headers["Content-Type"] = c.get("ctype") or "application/x-www-form-urlencoded"
     if c["host"]:
         headers["Host"] = c["host"]
     kw = dict(client_secret=c["cs"], token="tok" if c["token"] else None, token_secret=c["ts"] if c["token"] else None,
